@@ -153,6 +153,17 @@ class SymBuilder:
         self.objects[name] = a
         return a
 
+    def a_quantity(self, I, name, unit):
+        """a scalar Quantity whose canonical (SI) value is the symbolic leaf `name` (angles: radians)"""
+        um = I.import_module('astropy.units')
+        uu = um.ns[unit] if isinstance(unit, str) else unit
+        return I.call(I.getattr(um.ns['Quantity'], '_from_si'), [self._leaf(name, 'real'), uu], {})
+
+    def a_angle(self, I, name, unit):
+        cm = I.import_module('astropy.coordinates')
+        um = I.import_module('astropy.units')
+        return I.call(I.getattr(cm.ns['Angle'], '_from_si'), [self._leaf(name, 'real'), um.ns[unit]], {})
+
     def a_ref(self, I, dotted):
         return I.get(dotted)
 
@@ -330,6 +341,14 @@ class Engine:
     def invoke(self, tgt, args):
         I = self.I
         a = dict(args)
+        if isinstance(tgt, VFunc) and tgt.node.args.kwarg is None and '_args' not in a:
+            names = {p.arg for p in tgt.node.args.posonlyargs + tgt.node.args.args + tgt.node.args.kwonlyargs}
+            a = {k: v for k, v in a.items() if k in names}       # other entries are ghost parameters of the contract
+        elif isinstance(tgt, VClass) and '_args' not in a:
+            init, _ = tgt.lookup('__init__')
+            if isinstance(init, VFunc) and init.node.args.kwarg is None:
+                names = {p.arg for p in init.node.args.args + init.node.args.kwonlyargs}
+                a = {k: v for k, v in a.items() if k in names}
         if 'self' in a and isinstance(tgt, (VFunc, Builtin)):
             s = a.pop('self')
             return I.call(tgt, [s], a)
@@ -415,6 +434,11 @@ class Engine:
             s = ctx.sb._leaf(f'forall.{name}', {'int': 'int', 'real': 'real', 'bool': 'bool', 'index': 'int'}[kind])
             sk[name] = s
         meta['skolems'] = sk
+        trigmap = {}
+        for key, val in ctx.trig_cache.items():
+            if key[0] == 'trig' and len(val) == 3 and z3.is_const(val[2]) and val[2].decl().kind() == z3.Z3_OP_UNINTERPRETED:
+                trigmap[val[2].decl().name()] = (val[0].e.decl().name(), val[1].e.decl().name())
+        meta['trig'] = trigmap
         univ = []
         for (nn, f) in ctx.ghost.get('univ', []):
             for name, s in sk.items():
@@ -556,33 +580,42 @@ def to_smt2(hyps, goal):
 
 
 def _solve(job):
+    """ladder: z3 default (short) -> z3 qfnra-nlsat -> z3 default (long); verdicts never depend on which rung answered"""
     idx, smt, timeout_ms, seed = job
     t0 = time.time()
     try:
         ctx = z3.Context()
-        s = z3.Solver(ctx=ctx)
-        s.set('timeout', timeout_ms)
-        s.set('random_seed', seed)
-        s.from_string(smt)
-        r = s.check()
-        status = str(r)
-        backend = 'z3'
-        model = None
-        reason = None
-        if r == z3.unknown:
-            reason = s.reason_unknown()
-            # second attempt: nlsat tactic for nonlinear real arithmetic
+        base = z3.Solver(ctx=ctx)
+        base.from_string(smt)
+        asserts = base.assertions()
+        r, s, backend, reason = z3.unknown, None, 'z3', None
+        for rung, budget in (('z3', min(3000, timeout_ms)), ('z3-nlsat', timeout_ms), ('z3', timeout_ms)):
+            if rung == 'z3':
+                s = z3.Solver(ctx=ctx)
+                s.set('timeout', budget)
+                s.set('random_seed', seed)
+                s.add(*asserts)
+            else:
+                try:
+                    t = z3.TryFor(z3.Then(z3.Tactic('simplify', ctx), z3.Tactic('purify-arith', ctx), z3.Tactic('qfnra-nlsat', ctx), ctx=ctx), budget, ctx=ctx)
+                    s = t.solver()
+                    s.add(*asserts)
+                except z3.Z3Exception:
+                    continue
             try:
-                g = z3.Goal(ctx=ctx)
-                g.add(*s.assertions())
-                t = z3.TryFor(z3.Then(z3.Tactic('simplify', ctx), z3.Tactic('qfnra-nlsat', ctx), ctx=ctx), timeout_ms, ctx=ctx)
-                s2 = t.solver()
-                s2.add(*s.assertions())
-                r2 = s2.check()
-                if r2 != z3.unknown:
-                    r, s, status, backend = r2, s2, str(r2), 'z3-nlsat'
-            except z3.Z3Exception:
+                r = s.check()
+            except z3.Z3Exception as e:
+                r = z3.unknown
+                reason = str(e)
+            backend = rung
+            if r != z3.unknown:
+                break
+            try:
+                reason = s.reason_unknown()
+            except Exception:
                 pass
+        status = str(r)
+        model = None
         if r == z3.sat:
             m = s.model()
             model = {}
